@@ -667,5 +667,11 @@ func (r *runner) runAll() {
 	if verbose {
 		fmt.Printf("radix-pad family: %v\n", time.Since(t0))
 	}
+	// F7: the sprintf style entry points - several directives in one format text
+	t0 = time.Now()
+	r.sprintfFamily(thorough)
+	if verbose {
+		fmt.Printf("sprintf family: %v\n", time.Since(t0))
+	}
 	r.res.Exhaustive = false
 }
